@@ -40,7 +40,7 @@ def check(tier, seed):
     if os.path.exists(sanlog): os.remove(sanlog)
     subs = SUBCHECKS if tier == "thorough" else SUBCHECKS
     results = {}
-    with cf.ThreadPoolExecutor(max_workers=4) as ex:
+    with cf.ThreadPoolExecutor(max_workers=12) as ex:
         for pid, rc, out in ex.map(lambda p: run_sub(p, "quick" if tier == "quick" else "quick", seed, build, sanlog), subs):
             results[pid] = (rc, out)
     ran = {}
